@@ -9,6 +9,7 @@ From Coq Require Import ZArith List.
 From Coq Require Import Lia.
 From Arsenal Require Import Util Bits Gran Tlsf TlsfStep TlsfProps.
 From Arsenal Require Linear LinearInv LinearAlloc LinearFree LinearStep LinearSwap LinearVisit LinearProps.
+Import ListNotations.
 Open Scope Z_scope.
 
 Theorem C01_tlsf : forall h gr size ops,
